@@ -22,6 +22,9 @@ CLAIMED = {
  'C18': dict(cat='model_checking', tech='bounded model checking (CBMC/SAT) of the real mp::Equal / std::hash<mp::Expr> translated from clang IR, on trees built by the real ExprFactory from symbolic recipes (enumerated shape x solver-decided constants/indices/strings)',
    text='For every root category (20), operator, arity and leaf-kind combination listed in the evidence, two or three trees are built by the real factory with ALL numeric constants (any 64-bit pattern), indices and string bytes symbolic; Equal is compared with structural identity of the recipes, and symmetry, reflexivity, copy-equality, transitivity and Equal=>same-hash are asserted, with CBMC pointer checks for memory safety.',
    note='Shape (root kind/operator/arity/leaf kinds) is enumerated, not symbolic (symbolic node kinds make symbolic execution explode); depth <= 3, arity <= 3, strings <= 2 bytes; quick tier omits PL terms and calls (thorough only). std::_Hash_bytes is replaced by a deterministic byte mixer; +0/-0 expectation left open.', ref='DESIGN.md 3 C18'),
+ 'C19': dict(cat='model_checking', tech='bounded model checking (CBMC/SAT) of the real name-file line splitter (mp::internal::ReadNames) and, thorough tier, of NameProvider, translated from clang IR; the file content is a symbolic byte buffer',
+   text='Quick: ReadNames on every buffer up to 10 bytes (all byte values, data placed at either end of its block so under- and over-reads leave the object): each line reported once, in order, with \\n or \\r\\n stripped; missing final newline => ReadError. Thorough: the whole NameProvider (read, name(i), generic names) on buffers up to 8 bytes.',
+   note='Partial: uniqueness and derivation of names created during conversion (VCString::MakeCountedName, PresolveNames) need the whole converter and are NOT claimed. The memory-mapped file is a harness buffer (NameReader::Read is the environment); fmt formatting of the error text is a stub. The NameProvider pipeline needs > 10 min even for 5-byte files and is only in the thorough tier.', ref='DESIGN.md 3 C19'),
 }
 NA = {
  'C09': 'whole-process driver behaviour (exit status, stderr, .sol file on disk) over an instantiated backend: no bounded unit states it and neither CBMC nor the IR engines can carry main->BackendApp::Run with filesystem effects; its encodable ingredients are decided under C02, C10, C11, C12',
